@@ -84,6 +84,8 @@ MUTANTS = {
         ('pt-lookup-no-slash-check', 'src/passthrough/sync_io.rs', "        if name.to_bytes_with_nul().contains(&SLASH_ASCII) {\n            return Err(einval());\n        }\n        self.do_lookup(parent, name)", "        self.do_lookup(parent, name)"),
     ],
     'C17': [
+        ('async-mark-after-advance', 'src/transport/virtiofs/mod.rs', "                        self.buffers.mark_dirty(cnt);\n                        self.buffers.mark_used(cnt)?;", "                        self.buffers.mark_used(cnt)?;\n                        self.buffers.mark_dirty(cnt);"),
+        ('async-marks-requested-count', 'src/transport/virtiofs/mod.rs', "                        self.buffers.mark_dirty(cnt);", "                        self.buffers.mark_dirty(count);"),
         ('consume-for-write-no-mark', 'src/transport/virtiofs/mod.rs', "self.consume(true, count, f)", "self.consume(false, count, f)"),
         ('consume-marks-count', 'src/transport/mod.rs', "self.mark_dirty(bytes_consumed);", "self.mark_dirty(count);"),
         ('consume-for-read-marks', 'src/transport/mod.rs', "self.consume(false, count, f)", "self.consume(true, count, f)"),
